@@ -22,7 +22,7 @@ class StarCraftMpqIo:
         self,
         path_to_starcraft_mpq_file: str,
         outfile: str,
-        overwrite_existing: bool = True,
+        overwrite_existing: bool = False,
     ) -> None:
         if not os.path.exists(path_to_starcraft_mpq_file):
             raise FileNotFoundError(path_to_starcraft_mpq_file)
